@@ -1,3 +1,4 @@
+import SemverGen.Tactics
 import SemverGen.Extracted
 import SemverProofs.GenEquiv.Loops
 /-!
@@ -60,7 +61,7 @@ theorem Ident_fmt (a : Ident) : Ident.rs_fmt a = a.render := by
 theorem Version_is_prerelease (v : Version) : v.rs_is_prerelease = v.isPre := rfl
 
 theorem Version_eq (a b : Version) : Version.rs_eq a b = a.beq b := by
-  simp [Version.rs_eq, Version.beq, REq.eq, listEq_ident]
+  simp [Version.rs_eq, Version.beq, REq.eq, listEq_ident, Bool.and_assoc]
 
 theorem compareLex_ident : ∀ a b : List Ident, List.compareLex Ident.rs_cmp a b = List.compareLex cmpIdent a b := by
   have : Ident.rs_cmp = cmpIdent := by funext a b; exact Ident_cmp a b
@@ -123,15 +124,69 @@ theorem fmt_loop (c : Char) (n : Nat) (l : List Ident) (f : List Char) :
     rw [ih]
     by_cases h : n = 0 <;> simp [h, idsFrom, display, RDisplay.fmt, Ident_fmt, REq.eq]
 
+/-- the identifier loop with the separator chosen by an `if` expression and the lead given as a string (the form the
+loop takes when it is extracted into a helper `write_identifiers(f, lead, identifiers)`) -/
+def idsFromL (lead : List Char) : Nat → List Ident → List Char
+  | _, [] => []
+  | n, a :: as => (if n = 0 then lead else ['.']) ++ (a.render ++ idsFromL lead (n + 1) as)
+
+theorem fmt_loopL (lead : List Char) (n : Nat) (l : List Ident) (f : List Char) :
+    (enumerateFrom n l).foldl (fun s (x : Nat × Ident) =>
+      (s ++ (if REq.eq x.1 0 = true then lead else ['.'])) ++ display x.2) f = f ++ idsFromL lead n l := by
+  induction l generalizing n f with
+  | nil => simp [enumerateFrom, idsFromL]
+  | cons a as ih =>
+    simp only [enumerateFrom, List.foldl_cons]
+    rw [ih]
+    by_cases h : n = 0 <;> simp [h, idsFromL, display, RDisplay.fmt, Ident_fmt, REq.eq]
+
+theorem idsFromL_char (c : Char) (n : Nat) (l : List Ident) : idsFromL [c] n l = idsFrom c n l := by
+  induction l generalizing n with
+  | nil => rfl
+  | cons a as ih => by_cases h : n = 0 <;> simp [idsFromL, idsFrom, ih, h]
+
+theorem dot_loop (n : Nat) (l : List Ident) (f : List Char) :
+    l.foldl (fun s (i : Ident) => s ++ (['.'] ++ display i)) f = f ++ idsFrom '.' (n + 1) l := by
+  induction l generalizing n f with
+  | nil => simp [idsFrom]
+  | cons a as ih =>
+    simp only [List.foldl_cons]
+    rw [ih (n + 1)]
+    simp [idsFrom, display, RDisplay.fmt, Ident_fmt]
+
 theorem Version_fmt (v : Version) : v.rs_fmt = v.render := by
   unfold Version.rs_fmt
-  simp only [id_run, id_bind, id_pure]
-  rw [forIn_fold (g := fun (x : Nat × Ident) s => (if REq.eq x.1 0 = true then s ++ ['+'] else s ++ ['.']) ++ display x.2)]
-  · rw [forIn_fold (g := fun (x : Nat × Ident) s => (if REq.eq x.1 0 = true then s ++ ['-'] else s ++ ['.']) ++ display x.2)]
-    · simp only [Rust.enumerate, fmt_loop, idsFrom_zero]
-      simp [Version.render, renderCore, display, RDisplay.fmt]
-    · intro x s; obtain ⟨i, ident⟩ := x; simp only; split <;> rfl
-  · intro x s; obtain ⟨i, ident⟩ := x; simp only; split <;> rfl
+  first
+  | -- the two loops written out in `fmt`
+    (simp only [id_run, id_bind, id_pure]
+     rw [forIn_fold (g := fun (x : Nat × Ident) s => (if REq.eq x.1 0 = true then s ++ ['+'] else s ++ ['.']) ++ display x.2)]
+     · rw [forIn_fold (g := fun (x : Nat × Ident) s => (if REq.eq x.1 0 = true then s ++ ['-'] else s ++ ['.']) ++ display x.2)]
+       · simp only [Rust.enumerate, fmt_loop, idsFrom_zero]
+         simp [Version.render, renderCore, display, RDisplay.fmt]
+       · intro x s; obtain ⟨i, ident⟩ := x; simp only; split <;> rfl
+     · intro x s; obtain ⟨i, ident⟩ := x; simp only; split <;> rfl)
+  | -- the loop extracted into a helper that is handed the formatter, the lead and the identifiers
+    (unfold_auto_helpers
+     simp only [id_run, id_bind, id_pure]
+     rw [forIn_fold (g := fun (x : Nat × Ident) s => (s ++ (if REq.eq x.1 0 = true then ['-'] else ['.'])) ++ display x.2)
+           (h := fun _ _ => rfl),
+         forIn_fold (g := fun (x : Nat × Ident) s => (s ++ (if REq.eq x.1 0 = true then ['+'] else ['.'])) ++ display x.2)
+           (h := fun _ _ => rfl)]
+     simp only [Rust.enumerate, fmt_loopL, idsFromL_char, idsFrom_zero]
+     simp [Version.render, renderCore, display, RDisplay.fmt])
+  | -- a helper that writes the lead and the first identifier, then `.` and each of the rest
+    (unfold_auto_helpers
+     simp only [id_run, id_bind, id_pure]
+     have hl : ∀ (l : List Ident) (f : List Char),
+         (forIn l f (fun ident s => ForInStep.yield (s ++ '.' :: ident.render)) : Id (List Char)) = f ++ idsFrom '.' 1 l := by
+       intro l f
+       rw [forIn_fold (g := fun (i : Ident) s => s ++ '.' :: i.render) (h := fun _ _ => rfl)]
+       have := dot_loop 0 l f
+       simp only [display, RDisplay.fmt, Ident_fmt, List.singleton_append] at this
+       exact this
+     have hd := idsFrom_dot 0
+     rcases hp : v.pre with _ | ⟨a, as⟩ <;> rcases hb : v.build with _ | ⟨b, bs⟩ <;>
+       simp [Rust.next, hl, Version.render, renderCore, display, RDisplay.fmt, hp, hb, Ident_fmt, idsFrom, hd])
 
 /-! ### tuple conversions (all ten integer types) -/
 
